@@ -6,7 +6,8 @@ from props import c01
 from gen_hc import F, Sim, Net, pick_cfg, random_traffic, pick_len
 
 PROP = "C05"
-LAKE_TARGETS = ["Uflow.Props.C05", "uflow_driver"]
+LAKE_TARGETS = ["Uflow.Props.C05", "Uflow.Props.C05Sys", "uflow_driver"]
+PROPS_FILES = ["C05", "C05Sys"]
 TRUSTED_BASE = c01.TRUSTED_BASE
 ASSUMPTIONS = ["completeness ('every') rests on the same liveness argument as C02 and is checked on every generated run, not proved"]
 RULE = ("a loss-free FIFO network with latencies 0..150 ms, send histories over all modes/channels/sizes incl. multi-fragment, bursts exceeding the credit and both windows, "
@@ -97,6 +98,6 @@ def oracle(stream, cid, ops, outs):
                 j = max(front)
                 fails.append({"oracle": "all_delivered", "detail": "%s never received packet #%d (mode %d, %d bytes) on a loss-free network" % (ep, sent[j].idx, sent[j].mode, sent[j].len),
                               "signature": {"oracle": "all_delivered"}})
-        elif not sim.dead:
+        elif not sim.dead and not H.tail_progress(ops, outs):
             fails.append({"oracle": "quiescence", "detail": "ideal network, not quiescent after %d virtual s" % (sim.time // 10**9), "signature": {"oracle": "quiescence"}})
     return fails
